@@ -159,6 +159,13 @@ def main(argv):
                     audit_problems.append(f"{n}: inadmissible axioms {sorted(set(axioms[n]) - ALLOWED_AXIOMS)}")
             if rc_a != 0 and not audit_problems:
                 audit_problems.append("audit file failed: " + out_a[-300:])
+        if rc_p == 0 and tier == "thorough" and not replay:
+            rc_l, out_l = sh(["lake", "env", "leanchecker"] + spec["modules"], cwd=LEAN, timeout=3000)
+            leanchecker = f"leanchecker {' '.join(spec['modules'])}: rc={rc_l}"
+            if rc_l != 0:
+                audit_problems.append("leanchecker rejected the compiled modules: " + out_l[-400:])
+        else:
+            leanchecker = None
         # forbidden tokens: every file the property's modules (and its driver domains) import, transitively
         todo = list(spec["modules"]) + [f"SecsModel.Drv.{domains[w]}" for w in spec.get("driver_domains", []) if w in domains]
         seen_mods = set()
@@ -245,6 +252,7 @@ def main(argv):
             "model_driver_used": r0["driver_used"], "harness_notes": r0["notes"],
             "breaks": [f"{s}: {w}" for s, w in breaks],
             "known_findings_seen": seen_known,
+            "leanchecker": leanchecker,
         },
         "assumptions": spec.get("assumptions", []),
         "wall_s": round(time.time() - t0, 2),
